@@ -486,6 +486,18 @@ pub fn finish<const V: usize>(e: &mut Exec<V>) {
             let total = gl.sch_total.load(Ordering::SeqCst);
             let idle = total > 0 && gl.sch_parked.load(Ordering::SeqCst) == total && gl.sch_current.load(Ordering::SeqCst) == 0 && gl.sch_requests.load(Ordering::SeqCst) == 0;
             let concurrent_busy = mmtk::verif::concurrent_marking_in_progress(e.mmtk) == Some(true);
+            if !idle && gl.sync.lock().unwrap().stop_requested {
+                // a collection requested by an allocation that may not wait for it (`at_safepoint: false`) is
+                // waiting for the mutators to stop: the driver reaches its safepoint now, as a VM thread would
+                let m = (0..MAX_MUTATORS).find(|i| e.bound[*i]).unwrap_or(0);
+                <ShadowVM<V> as mmtk::vm::Collection<ShadowVM<V>>>::block_for_gc(mutator_tls(m));
+                e.after_possible_gc();
+                cnt!(e, "yielded_to_pending_gc_at_end");
+                if !e.verdict.ok {
+                    return;
+                }
+                continue;
+            }
             if idle || concurrent_busy || total == 0 {
                 if idle {
                     cnt!(e, "c14_idle_at_end");
